@@ -574,8 +574,8 @@ def tool_grid(tier):
         "dict": (1, [{}], [], "pairs"),
         "sorted": (1, [{}, {"key": 0, "reverse": True}], [{"kind": "negkey"}], "obj"),
         "reduce": (1, [{}, {"initial": ["o", 900, 1]}], [PAIR], "obj"),
-        "nlargest": (1, [{"n": 2}, {"n": 2, "key": 0}], [{"kind": "negkey"}], "obj"),
-        "nsmallest": (1, [{"n": 2}, {"n": 0}], [], "obj"),
+        "nlargest": (1, [{"n": 2}, {"n": 2, "key": 0}, {"n": 1}, {"n": 1, "key": 0}], [{"kind": "negkey"}], "obj"),
+        "nsmallest": (1, [{"n": 2}, {"n": 0}, {"n": 1}], [], "obj"),
     }
     return grid
 
